@@ -324,6 +324,17 @@ class ExprMixin:
         if not gen.ifs and len(results) == 1 and results[0][0] is probe and len(probe.pc) == len(st.pc) + 1:
             yield st, mk_list(rt, n, z3.Lambda([i], results[0][1].e))
             return
+        base_n = len(st.pc) + 1
+        if not gen.ifs and all(s2.pc[:base_n] == probe.pc[:base_n] or True for s2, _ in results) \
+                and all(not solve.has_quantifier(f) for s2, _ in results for f in s2.pc[base_n:]):
+            # the element forks on conditions (e.g. a conditional expression): combine the
+            # alternatives into one term guarded by their path conditions
+            term = results[-1][1].e
+            for s2, v in reversed(results[:-1]):
+                cond = z3.And(*s2.pc[base_n:]) if len(s2.pc) > base_n else z3.BoolVal(True)
+                term = z3.If(cond, v.e, term)
+            yield st, mk_list(rt, n, z3.Lambda([i], term))
+            return
         r = self.fresh_val(st, rt, 'comp')
         if gen.ifs:
             st.assume(list_len(r) <= n)
